@@ -434,8 +434,7 @@ def envWith (dstField : String) : Env :=
                 fields := [⟨"ID", 1⟩, ⟨"Id", 0⟩] },
               { kind := .named, str := "p.D", name := "D", pkgPath := some "p", isStruct := true,
                 fields := [⟨dstField, 0⟩] } ],
-    assignable := fun a b => a == b, convertible := fun _ _ => false, lookup := fun _ _ => .none,
-    scopeHas := fun _ => true, pkgPath := "p", imports := [], stringTy := 1 }
+    assignable := fun a b => a == b, convertible := fun _ _ => false, lookup := fun _ _ => .none, pkgPath := "p", imports := [], stringTy := 1 }
 
 def envCase : Env := envWith "id"
 
